@@ -873,3 +873,24 @@ pub fn atf2<X: Val + Send + 'static>(ev: u32) -> impl Fn(Tok, X) -> Gate<Result<
         Gate::new(ev, d, move |_occ, fail| if fail { Err(ETok::new(mix(d, ev as u64))) } else { Ok(acc.stamp(ev).stamp((d & 0xFFFF) as u32)) })
     }
 }
+
+// ------------------------------------------------------------------------------------------
+// operator look-alikes inside operands (adversarial operand shapes)
+// ------------------------------------------------------------------------------------------
+
+/// `w::sh(callback) << 0` (also >>, |, ^, &, +, -, *, /, %) evaluates to the callback itself: a complete operand
+/// whose prefix `w::sh(callback)` is complete too and is followed by a token that looks like the start of a DSL operator.
+#[derive(Clone, Copy)]
+pub struct Sh<F>(pub F);
+pub fn sh<F>(f: F) -> Sh<F> {
+    Sh(f)
+}
+macro_rules! sh_ops {
+    ($($tr:ident $m:ident),*) => {$(
+        impl<F> std::ops::$tr<u32> for Sh<F> {
+            type Output = F;
+            fn $m(self, _rhs: u32) -> F { self.0 }
+        }
+    )*};
+}
+sh_ops!(Shl shl, Shr shr, BitOr bitor, BitXor bitxor, BitAnd bitand, Add add, Sub sub, Mul mul, Div div, Rem rem);
